@@ -92,6 +92,14 @@ fn hdr_for(align: usize) -> usize {
     HDR.max(align)
 }
 
+fn pad_for(align: usize) -> usize {
+    if align < 16 {
+        align
+    } else {
+        0
+    }
+}
+
 unsafe impl GlobalAlloc for VerifAlloc {
     unsafe fn alloc(&self, layout: Layout) -> *mut u8 {
         let armed = ARM_SIZE.load(Ordering::Relaxed);
@@ -104,7 +112,11 @@ unsafe impl GlobalAlloc for VerifAlloc {
                 return std::ptr::null_mut();
             }
         }
-        let hdr = hdr_for(layout.align());
+        // the block is aligned exactly as requested and no better (address = 16k + align for
+        // alignments below 16): code that assumes more alignment than it asked for — a u64 view of a
+        // byte buffer — then meets a misaligned address, which the standard library's debug
+        // preconditions (enabled for grenad in this build) refuse
+        let hdr = hdr_for(layout.align()) + pad_for(layout.align());
         let align = layout.align().max(16);
         let total = match layout.size().checked_add(hdr + 8) {
             Some(t) => t,
@@ -121,10 +133,10 @@ unsafe impl GlobalAlloc for VerifAlloc {
         let user = base.add(hdr);
         let h = user.sub(HDR) as *mut u64;
         let storage = T_STORAGE.try_with(|s| s.get()).unwrap_or(true);
-        h.write(LIVE);
-        h.add(1).write(layout.size() as u64);
-        h.add(2).write(layout.align() as u64);
-        h.add(3).write(storage as u64);
+        h.write_unaligned(LIVE);
+        h.add(1).write_unaligned(layout.size() as u64);
+        h.add(2).write_unaligned(layout.align() as u64);
+        h.add(3).write_unaligned(storage as u64);
         (user.add(layout.size()) as *mut [u8; 8]).write(CANARY.to_le_bytes());
         if !storage {
             // fresh memory is junk, and the same junk in every process: a read of bytes that were never
@@ -146,15 +158,15 @@ unsafe impl GlobalAlloc for VerifAlloc {
 
     unsafe fn dealloc(&self, ptr: *mut u8, layout: Layout) {
         let h = ptr.sub(HDR) as *mut u64;
-        let magic = h.read();
+        let magic = h.read_unaligned();
         if magic != LIVE {
             // double free or foreign pointer: do not touch the system allocator with it
             report(if magic == FREED { 2 } else { 3 }, layout.size() as u64, layout.align() as u64);
             return;
         }
-        let size = h.add(1).read() as usize;
-        let align = h.add(2).read() as usize;
-        let storage = h.add(3).read() != 0;
+        let size = h.add(1).read_unaligned() as usize;
+        let align = h.add(2).read_unaligned() as usize;
+        let storage = h.add(3).read_unaligned() != 0;
         if size != layout.size() || align != layout.align() {
             report(1, ((size as u64) << 8) | align as u64, ((layout.size() as u64) << 8) | layout.align() as u64);
         }
@@ -162,13 +174,13 @@ unsafe impl GlobalAlloc for VerifAlloc {
         if u64::from_le_bytes(can) != CANARY {
             report(4, size as u64, align as u64);
         }
-        h.write(FREED);
+        h.write_unaligned(FREED);
         if !storage {
             let _ = T_LIVE.try_with(|l| l.set(l.get().saturating_sub(size as u64)));
             // poison: a read through a dangling reference yields 0xDD bytes deterministically
             std::ptr::write_bytes(ptr, 0xDD, size);
         }
-        let hdr = hdr_for(align);
+        let hdr = hdr_for(align) + pad_for(align);
         let under = Layout::from_size_align_unchecked(size + hdr + 8, align.max(16));
         if !storage && under.size() <= Q_MAX_BLOCK {
             let parked = T_Q
